@@ -270,7 +270,7 @@ func init() {
 			Post: func(c *Ctx) error {
 				max := 24
 				if c.Tier == "thorough" {
-					max = 40
+					max = 28
 				}
 				runIRChecks(c, true, false, max)
 				return nil
